@@ -274,9 +274,9 @@ def check_C09(ctx, unit):
              "on the bit-set path, which constructs nothing", 2)
     ll = 15
     for f in _fn(unit, "pfx_of"):
-        RB.check_shifts(ctx, "B3.shift-range", f, {"d": RB.Iv(0, ll)})
+        RB.check_shifts(ctx, "B3.shift-range", f, {f.params()[1]["n"]: RB.Iv(0, ll)})
     for f in _fn(unit, "idx_of"):
-        RB.check_shifts(ctx, "B3.shift-range", f, {"d": RB.Iv(0, ll)})
+        RB.check_shifts(ctx, "B3.shift-range", f, {f.params()[1]["n"]: RB.Iv(0, ll)})
     sigs = {}
     for name in ("find", "find_or_insert", "erase"):
         for f in _fn(unit, name):
@@ -291,7 +291,7 @@ def check_C09(ctx, unit):
                     d = root_did(w[0])
                     if d is not None and resolve_alias(al, d) in fresh:
                         fresh_depth[resolve_alias(al, d)] = canon(w[1])
-            kparam = [p["d"] for p in f.params() if p["n"] == "k"]
+            kparam = [f.params()[0]["d"]] if f.params() and "int" in f.params()[0]["t"] or (f.params() and "uint64" in f.params()[0]["t"]) else []
             if not kparam:
                 raise AnalysisBroken("anchor vanished: key parameter k of %s" % f.qn)
             cnt = 0
